@@ -190,7 +190,7 @@ def full_check(prop, tier, own, rule, explanation, extra=None):
     chk.notes["replay"] = {"reward_sequences": len(trs), "implementation_run_is_literally_one_of_the_enumerated_behaviours": agree,
                            "not_literally_enumerated_but_accepted_by_trace_validation(fixed-point near ties)": sum(1 for t in trs if observed_behaviour(t) not in expected[t["id"]] and v[t["id"]][0] == "ok")}
     cfgs = random_cfgs(tier, 1200000)
-    trs = [t for t in S.pmap(TB.run_tb, cfgs) if "skipped" not in t]
+    trs = [t for t in S.pmap(TB.run_tb, cfgs, procs=3) if "skipped" not in t]     # 3 workers: instances with different parameters follow each other in one process
     chk.validate("Trace_TreeBandit.tla", "Trace_TreeBandit.cfg", trs, "grid", own=own, nontrivial=nontrivial)
     chk.sample({"cfg": trs[0]["cfg"], "events": trs[0]["ev"][1:5]})
     if extra:
